@@ -7,7 +7,7 @@ from . import gen, model, run, props
 PLANS = {
     "C05": {"twin": ["TwinBlocks", "TwinTaus"], "single": ["C05_FftSmooth"]},
     "C10": {"twin": ["TwinFull"], "single": []},
-    "C11": {"twin": ["TwinChan", "TwinCtl"], "single": ["C11_MaskUntouched", "C03_CallOk"]},
+    "C11": {"twin": ["TwinChan", "TwinCtl", "TwinFull"], "single": ["C11_MaskUntouched", "C03_CallOk"]},
     "C16": {"twin": ["TwinFull"], "single": ["C16_Flush", "C16_VecForward", "C16_WrapperShape"]},
     "C17": {"twin": ["TwinCtl", "TwinNear"], "single": []},
     "C18": {"twin": ["TwinFull"], "single": []},
@@ -369,6 +369,37 @@ def c11_scripts(rng, tier, model_prefixes):
             common = [{k: v for k, v in o.items() if k not in ("mask", "empty_masked")} for o in h[1:]]
             S.append(build3(n, rng.randrange(2, 5), common))
 
+    def build5(n, nch, common):
+        """`None` means "all channels active": an instance that is called without a mask whenever all channels
+        are active must equal one that is always given an explicit mask (all true in those calls), whatever masks
+        came before (seeded change C11m)"""
+        A = dict(n); A["ch"] = nch
+        ops = [with_id(A, 0), with_id(A, 1), {"op": "note", "twin": "full", "a": 0, "b": 1}]
+        for o in common:
+            if o["op"] in ("process", "partial"):
+                u = rng.random()
+                m = ([True] * nch if u < 0.5 else [rng.random() < 0.6 for _ in range(nch)])
+                oa = dict(o); ob = dict(o)
+                oa["via"] = ob["via"] = "into"
+                ob["mask"] = m
+                if not all(m) or rng.random() < 0.5:
+                    oa["mask"] = m           # instance 0 mixes None and Some(all true) for "all active"
+                ops += [with_id(oa, 0), with_id(ob, 1)]
+            else:
+                ops += [with_id(o, 0), with_id(o, 1)]
+        return ops
+
+    for _ in range(n_gen // 3):
+        for kind in gen.KINDS:
+            h = gen.valid_history(rng, kind, rng.randrange(8, 18), small=rng.random() < 0.5,
+                                  allow=("ratio", "ramp", "chunk", "reset"))
+            n = calm(h[0])
+            sig(n, rng)
+            n.pop("probe", None)
+            n["T"] = rng.choice([32, 64])
+            common = [{k: v for k, v in o.items() if k not in ("mask", "empty_masked", "via")} for o in h[1:]]
+            S.append(build5(n, rng.randrange(2, 5), common))
+
     def build4(n, nch, common):
         """dual mono: in some calls several channels are handed the very SAME input slice (same address); each
         channel must still equal a single-channel twin that is fed the same data (seeded change C11l)"""
@@ -588,6 +619,12 @@ def c18_scripts(rng, tier, schedules):
         # the related one is sometimes built BEFORE the reference as well (construction order matters)
         if rng.random() < 0.5:
             ops += [with_id(inter[1], 10), {"op": "process", "id": 10}]
+            if rng.random() < 0.5:
+                # ... and dropped again before the reference exists (anything pooled or recycled between
+                # instances - seeded change C18f); sometimes it is the reference's very own configuration
+                if rng.random() < 0.5:
+                    ops[-2] = with_id(dict(n), 10)
+                ops += [{"op": "process", "id": 10}, {"op": "drop", "id": 10}]
             inter = inter[:1] + [dict(inter[1])]
         ops += [with_id(n, 0)] + [with_id(c, 0) for c in calls]
         for j, o2 in enumerate(inter):
